@@ -118,6 +118,15 @@ pub enum Fault {
         dst: usize,
         len: usize,
     },
+    /// A block of bytes lands at `off` (misdirected / crafted write): used by field locators
+    /// that need more than four bytes, e.g. a charstring prologue.
+    Write {
+        target: String,
+        off: usize,
+        bytes: Vec<u8>,
+        #[serde(default, skip_serializing_if = "String::is_empty")]
+        field: String,
+    },
     DropTable {
         tag: String,
     },
@@ -142,6 +151,7 @@ impl Fault {
                     "Field"
                 }
             }
+            Fault::Write { .. } => "Write",
             Fault::Truncate { .. } => "Truncate",
             Fault::ZeroRange { .. } => "ZeroRange",
             Fault::CopyRange { .. } => "CopyRange",
@@ -156,6 +166,7 @@ impl Fault {
         match self {
             Fault::BitFlip { target, .. }
             | Fault::Set { target, .. }
+            | Fault::Write { target, .. }
             | Fault::Truncate { target, .. }
             | Fault::ZeroRange { target, .. }
             | Fault::CopyRange { target, .. } => vec![target.clone()],
